@@ -49,6 +49,9 @@ func UnmarshalPriShare(data []byte, suite Suite) (*share.PriShare, error) {
 	if err != nil {
 		return nil, err
 	}
+	if compatiblePriShare.V == nil {
+		return nil, errors.New("missing value in private share")
+	}
 	priShare := &share.PriShare{
 		I: uint32(compatiblePriShare.I),
 		V: compatiblePriShare.V,
